@@ -297,7 +297,7 @@ impl Campaign for LoopCampaign {
   fn world(&self) -> &'static str { "B" }
   fn runs(&self, thorough: bool) -> u64 { if thorough { self.thorough_runs } else { self.quick_runs } }
   fn declare(&self, acc: &mut Acc) {
-    for f in ["signal_interrupts_poll", "spurious_timeout_idle", "spurious_readiness", "io_latency_in_call", "timer_oversleep", "keyboard_unplugged", "tablet_switch_unplugged", "device_order_flipped", "arrival_during_drain", "backoff_sleep"] { acc.declare_fault(f); }
+    for f in ["signal_interrupts_poll", "spurious_timeout_idle", "spurious_readiness", "io_latency_in_call", "stall_of_20ms_to_2s_inside_one_call", "timer_oversleep", "keyboard_unplugged", "tablet_switch_unplugged", "device_order_flipped", "arrival_during_drain", "backoff_sleep"] { acc.declare_fault(f); }
     if self.sweep { acc.declare_fault("io_error_in_driver_call"); }
     if self.write_faults { for f in ["os_write_eagain_under_real_writer", "os_write_epipe_under_real_writer", "os_write_ebadf_under_real_writer", "os_read_ebadf_under_real_driver"] { acc.declare_fault(f); } }
     if self.hybrid { for f in ["os_write_eagain_at_nth_write_syscall", "os_write_eio_at_nth_write_syscall", "os_write_eintr_at_nth_write_syscall"] { acc.declare_fault(f); } }
@@ -331,7 +331,7 @@ impl Campaign for LoopCampaign {
     let mut tally = |o: &Outcome, acc: &mut Acc| {
       let s = &o.stats;
       acc.fault("signal_interrupts_poll", s.eintr); acc.fault("spurious_timeout_idle", s.spurious_timeout); acc.fault("spurious_readiness", s.spurious_ready);
-      acc.fault("io_latency_in_call", s.latency); acc.fault("timer_oversleep", s.oversleep); acc.fault("keyboard_unplugged", s.kbd_unplugged); acc.fault("tablet_switch_unplugged", s.tab_unplugged);
+      acc.fault("io_latency_in_call", s.latency); acc.fault("stall_of_20ms_to_2s_inside_one_call", s.stalls_in_call); acc.fault("timer_oversleep", s.oversleep); acc.fault("keyboard_unplugged", s.kbd_unplugged); acc.fault("tablet_switch_unplugged", s.tab_unplugged);
       acc.fault("io_error_in_driver_call", s.io_error); acc.fault("os_write_eagain_under_real_writer", s.os_write_fault[0]); acc.fault("os_write_epipe_under_real_writer", s.os_write_fault[1]); acc.fault("os_write_ebadf_under_real_writer", s.os_write_fault[2]); acc.fault("os_read_ebadf_under_real_driver", s.os_read_fault); acc.fault("os_read_enodev_unplug_under_real_driver", s.os_enodev); acc.fault("hangup_on_unplug_cross_checked_against_real_poll", s.hangups_cross_checked);
       acc.probe_n("polls_through_the_shipped_real_driver_poll", s.sys_polls_through_real_driver); acc.probe_n("wait_syscall_timed_out_in_simulated_kernel", s.sys_wait_timeouts); acc.probe_n("wait_syscall_sub_millisecond_timeout_truncated_by_driver", s.sys_subms_truncated);
       acc.fault("wait_syscall_interrupted_eintr", s.sys_wait_eintr); acc.fault("wait_syscall_fabricated_readiness", s.sys_fabricated_ready); acc.fault("wait_syscall_stale_edge_dropped", s.sys_stale_dropped);
